@@ -3,6 +3,7 @@
 mod common;
 mod bl;
 mod ck;
+mod cms;
 mod qf;
 
 use common::*;
@@ -70,6 +71,18 @@ fn main() {
         ("drive", "bl") => bl::drive(&args, false),
         ("drive", "hs") => bl::drive(&args, true),
         ("learn", "bl") => bl::learn(&args),
+        ("replay", "cms8") => replay::<cms::CmsSut<u8>>(&args),
+        ("replay", "cms16") => replay::<cms::CmsSut<u16>>(&args),
+        ("replay", "cms32") => replay::<cms::CmsSut<u32>>(&args),
+        ("replay", "cms64") => replay::<cms::CmsSut<u64>>(&args),
+        ("replay", "cmsz") => replay::<cms::CmsSut<usize>>(&args),
+        ("scenario", "cms8") => scenario::<cms::CmsSut<u8>>(&args),
+        ("scenario", "cms16") => scenario::<cms::CmsSut<u16>>(&args),
+        ("scenario", "cms32") => scenario::<cms::CmsSut<u32>>(&args),
+        ("scenario", "cms64") => scenario::<cms::CmsSut<u64>>(&args),
+        ("scenario", "cmsz") => scenario::<cms::CmsSut<usize>>(&args),
+        ("drive", "cms") => cms::drive(&args),
+        ("learn", "cms") => cms::learn(&args),
         ("replay", "ck") => replay::<ck::CkSut>(&args),
         ("scenario", "ck") => scenario::<ck::CkSut>(&args),
         ("drive", "ck") => ck::drive(&args),
